@@ -183,12 +183,13 @@ def seekable(kind: int, bufsize: int) -> bool:
 # ------------------------------------------------------------------------------------------
 def cut(k: int) -> bool:
     """
-    pre: 0 <= k <= P["len"]
+    pre: P.get("lo", 0) <= k <= P.get("hi", P["len"])
     post: _
     """
     try:
+        k = pin(k, P["len"] + 1) if P.get("lo", 0) > 0 else k
         with notrace():
-            data, bounds, per = make_stream(P["integ"], P["phys"], P["K"], P["fs"], P.get("lead_empty", False))
+            data, bounds, per = make_stream(P["integ"], P["phys"], P["K"], P["fs"], P.get("lead_empty", False), P.get("mid_empty", False), P.get("long", False))
         full = [i for f in per for i in f]
         got = []
         try:
